@@ -131,6 +131,17 @@ def check_ack(ack_sink, r, out, log, arm):
         a = AP.parse(text)
     except T.NotX12:
         return None
+    # a copied value must not split a simple element of the ack into components either (it would no longer fit
+    # the ack's own definition although the source value did)
+    simple = {'AK1': (1, 2, 3), 'AK2': (1, 2, 3), 'AK3': (1, 2, 3, 4), 'IK3': (1, 2, 3, 4), 'AK4': (2, 3, 4), 'IK4': (2, 3, 4)}
+    if a.kind == '997':
+        simple['AK4'] = (1, 2, 3, 4) if False else (2, 3, 4)
+    for s in tk.segs:
+        for k in simple.get(s.id, ()):
+            if k <= len(s.elements) and len(s.elements[k - 1]) > 1:
+                out.violate('ack', 'ack-component-split|%s%02d' % (s.id, k), '%s%02d is a simple element but the copied value %r splits it into components' % (
+                    s.id, k, tk.subele_term.join(s.elements[k - 1])))
+                return None
     # AK404/IK404 equals the offending value
     echoed = []
     for st in a.sets:
